@@ -105,6 +105,18 @@ CLAIMED.update({
         ref='DESIGN.md section 5 C15'),
 })
 
+CLAIMED.update({
+    'C18': dict(
+        text='Panic-freedom sweep of the whole analysis package (check.go, hover.go, goto_definition.go, document_symbols.go) for every tree of the editor shape: '
+             'every child may be missing, lists may hold nil entries, declarations may lack a name or an origin. Every nil dereference, nil-interface call, index, type switch default and nil-map write on every path '
+             'is an obligation; the checker state (all maps exist, registered declarations have a name and a type, resolutions are of the two known kinds) is an invariant of every function; the scope flags '
+             'of capped sources are restored on exit.',
+        note='ASSUMED (listed in the trusted base of each run): Parse yields a tree of the editor shape - no interface field holds a nil pointer, and six children the analysis dereferences without a guard are present '
+             '(call name, declaration type, expression of an account source/destination, address of an overdraft source) - a fact about ANTLR error recovery (T3), backed by a 6000-input differential probe during development, not proved. '
+             'Termination, diagnostic ranges lying inside the document, and determinism (map iteration order of the unused-variable loop) are not decided by these contracts.',
+        ref='DESIGN.md section 5 C18'),
+})
+
 NOT_APPLICABLE = {}
 
 PENDING = [ 'C16', 'C17', 'C18', 'C19', 'C20']
